@@ -11,7 +11,7 @@ VARIANT = "plain"
 def describe(tier):
     return {
         "rule": "every ordered pair (A,B) of subsets of a %d-value universe and of the boundary universe %r, through the three "
-        "merge kernels and the three None-aware wrappers (every None/array/empty form, every copy flag); every list of "
+        "merge kernels and the three None-aware wrappers (every None/array/empty form, every copy flag); every (long contiguous run of 8..17(33) elements, optionally with one hole) x (1..2 sparse probe elements) pair in both orders - the shape block-skipping optimisations are written for; every list of "
         "0..k subsets for the multi-way union. A pair case is non-trivial when both operands are non-empty and their ranges "
         "overlap (no shortcut applies); a list case when it has >=2 non-empty arrays. Distinct = distinct (universe, A, B) / list."
         % (K.LOW[tier], K.HIGH[tier]),
@@ -25,7 +25,7 @@ def describe(tier):
 
 
 def blocks(tier):
-    bl = K.pair_blocks(tier) + K.many_blocks(tier)
+    bl = K.pair_blocks(tier) + K.many_blocks(tier) + K.run_blocks(tier)
     return [(f, dict(p, tier=tier)) for f, p in bl]
 
 
@@ -114,8 +114,32 @@ def check_many(lst, acc, fam):
         acc.violation("kernel:union_many", case, msg)
 
 
+def check_kernels_only(A, B, acc, uname):
+    so = _so()
+    a, b = K.arr(A), K.arr(B)
+    sA, sB = set(A), set(B)
+    case = {"u": uname, "A": A, "B": B}
+    for op, fn, want in (("intersect", so.set_intersect_merge_np, sA & sB), ("union", so.set_union_merge_np, sA | sB), ("difference", so.set_difference_merge_np, sA - sB)):
+        try:
+            res = fn(a, b)
+        except Exception as e:  # noqa
+            acc.violation("kernel:" + op, dict(case, op=op), "raised %r" % (e,))
+            continue
+        msg = K.check_result(res, sorted(want))
+        if msg:
+            acc.violation("kernel:" + op, dict(case, op=op), msg)
+
+
 def run_block(family, p, acc):
     tier = p["tier"]
+    if family == "runs":
+        probes = K.probe_sets(tier)
+        for A in K.run_sets(tier)[p["a0"]:p["a1"]]:
+            for B in probes:
+                check_kernels_only(A, B, acc, "runs")
+                check_kernels_only(B, A, acc, "runs")
+                acc.case(("runs", tuple(A), tuple(B)), nontrivial=K.overlapping(A, B), outcome=("runs", len(set(A) & set(B))), sample=lambda: {"universe": "runs", "A": A, "B": B})
+        return
     if family == "pairs":
         uni = K.universes(tier)[p["u"]]
         n = 1 << len(uni)
@@ -139,6 +163,8 @@ def replay(case, site=None):
     acc = Acc(ID, [], stop_at_first=False)
     if "arrays" in case:
         check_many(case["arrays"], acc, case.get("fam"))
+    elif case.get("u") == "runs":
+        check_kernels_only(case["A"], case["B"], acc, "runs")
     else:
         check_pair(case["A"], case["B"], acc, case.get("u"))
     for v in acc.violations:
